@@ -153,7 +153,10 @@ def m_special(ctx, case):
             modn = "bds" + nm[-2:] if nm[-2:].isdigit() else "bds" + "".join(ch for ch in nm if ch.isdigit())[:2]
             if nm in ("alt40mcp", "alt40fms"):
                 modn = "bds40"
-            m = importlib.import_module("pyModeS.decoder.bds." + modn)
+            try:
+                m = importlib.import_module("pyModeS.decoder.bds." + modn)
+            except ImportError:
+                continue  # an export this harness does not know: nothing is claimed about it
             ctx.ev()
             if getattr(commb, nm, None) is not getattr(m, nm, "MISSING"):
                 ctx.violation("commb-export-is-not-the-decoder", name=nm)
